@@ -112,6 +112,42 @@ theorem C02_rack_timer_armed (s : St) (env : Env) (found : Bool) (nt : Int) (nts
     schedulePTOAfterSack_now, schedulePTOAfterSack_reoWnd, rackArm_list, rackArm_deliveredTime, rackArm_now, rackArm_reoWnd]
   exact rackArm_deadline _
 
+/-- ✱ The probe timeout, as RFC 8985 §7.2 states it and exactly as both copies of the computation in the code give it
+(after new data was sent, and after a SACK): with data in flight the PTO is armed at `now + 2·SRTT + 2 ms`, at
+`now + 2·SRTT + WCDelAckT` when a single chunk is in flight, at `now + 1 s` without an RTT sample (disarmed if that
+duration is not positive); with nothing in flight it is stopped. -/
+set_option linter.unusedSimpArgs false in
+theorem C02_pto_deadline (s : St) (env : Env) :
+    (schedulePTOAfterSend s env).ptoDeadline =
+      (if s.q.length = 0 then 0 else
+        let pto := if env.srtt.sendValid then 2 * env.srtt.sendDur + (if s.q.length = 1 then s.cfg.wcDelAck else 2000000) else 1000000000
+        if pto ≤ 0 then 0 else s.now + pto) ∧
+    (schedulePTOAfterSack s env).ptoDeadline =
+      (if s.q.length = 0 then 0 else
+        let pto := if env.srtt.ptoValid then 2 * env.srtt.ptoDur + (if s.q.length = 1 then s.cfg.wcDelAck else 2000000) else 1000000000
+        if pto ≤ 0 then 0 else s.now + pto) := by
+  constructor
+  · unfold schedulePTOAfterSend ptoSend_idle ptoSend_single ptoSend_pto ptoSend_extra ptoSend_noRTT startPTOTimer stopPTOTimer
+      ptoTimer_disarms ptoTimer_deadline
+    by_cases h0 : s.q.length = 0
+    · simp [h0]
+    · have h0' : ¬ ((s.q.length : Int) = 0) := by omega
+      by_cases h1 : s.q.length = 1
+      · have h1' : ((s.q.length : Int) = 1) := by omega
+        cases env.srtt.sendValid <;> simp [h0, h0', h1, h1']
+      · have h1' : ¬ ((s.q.length : Int) = 1) := by omega
+        cases env.srtt.sendValid <;> simp [h0, h0', h1, h1']
+  · unfold schedulePTOAfterSack rack_ptoIdle rack_ptoSingle rack_pto rack_ptoExtra rack_ptoNoRTT startPTOTimer stopPTOTimer
+      ptoTimer_disarms ptoTimer_deadline
+    by_cases h0 : s.q.length = 0
+    · simp [h0]
+    · have h0' : ¬ ((s.q.length : Int) = 0) := by omega
+      by_cases h1 : s.q.length = 1
+      · have h1' : ((s.q.length : Int) = 1) := by omega
+        cases env.srtt.ptoValid <;> simp [h0, h0', h1, h1']
+      · have h1' : ¬ ((s.q.length : Int) = 1) := by omega
+        cases env.srtt.ptoValid <;> simp [h0, h0', h1, h1']
+
 /-- ✱ PTO makes progress when nothing is pending: with data in flight and an empty pending queue, the LAST chunk of the
 in-flight queue that is neither acknowledged nor abandoned carries the retransmit flag afterwards (it is flagged now or
 was already) and is still neither acked nor abandoned; if there is no such chunk, everything in flight from the
@@ -209,5 +245,10 @@ example : RunOK (init {} 1000 1) [.send false, .advance 5, .resend 1000 true fal
   · intro h; cases h
 example : (onRackAfterSACK { (default : St) with now := 100, deliveredTime := 50, list := [1, 2], q := [({ tsn := 1, since := 10 } : Chunk), ({ tsn := 2, since := 50 } : Chunk)] } {} false 0 0 0).2 = [1] := by decide
 example : EnvOK {} := by intro h; cases h
+-- the hypotheses of C02_rack_never_marks_newest / C02_reownd_bounded hold in the initial state and for a positive SRTT
+example : EnvOK { srtt := SrttView.ofRat 80, inFastRecovery := false, t3Running := true, pendingSize := 0 } := envOK_ofRat 80 false true 0
+example : (0 : Int) ≤ (init {} 7 1).cfg.reoWndFloor ∧ (0 : Int) ≤ (init {} 7 1).reoWnd := by decide
+-- C02_pto_probe_progress_partial: a state with data in flight, nothing pending, an outstanding chunk
+example : (onPTOTimer { (default : St) with now := 9, cumAck := 10, q := [({ tsn := 11, since := 1 } : Chunk), ({ tsn := 12, since := 1, acked := true } : Chunk)] } {}).2 = [11] := by decide
 
 end C02
